@@ -49,6 +49,13 @@ PY
     IDS="$*"; [ -z "$IDS" ] && IDS=$(python3 -c "import json;print(json.load(open('$D/meta.json'))['breaks_property'])")
     OUT=$("$HERE/tools/sens.sh" patch "$D/patch.diff" $IDS 2>&1)
     echo "$OUT"
+    # exactly one verdict line per (change, check): a run that yields none (patch did not apply, scratch copy failed,
+    # tool crashed) must be visible in a filtered log, not silently absent
+    for id in $IDS; do
+      if ! echo "$OUT" | grep -qE "^$NAME +$id +(CAUGHT|MISSED|INCONCLUSIVE)"; then
+        printf "%-34s %-4s %-12s %s\n" "$NAME" "$id" "NO-VERDICT" "$(echo "$OUT" | tail -1 | cut -c1-120)"
+      fi
+    done
     python3 - "$D/meta.json" "$OUT" <<'PY'
 import json,sys
 p,out=sys.argv[1:3]
@@ -61,7 +68,10 @@ json.dump(m,open(p,"w"),indent=1)
 PY
     ;;
   runall)
-    for d in "$HERE"/seeded/*/; do n=$(basename "$d"); "$0" run "$n"; done
+    TMP=$(mktemp)
+    for d in "$HERE"/seeded/*/; do n=$(basename "$d"); "$0" run "$n" | tee -a "$TMP"; done
+    echo "TALLY changes=$(ls -d "$HERE"/seeded/*/ | wc -l) CAUGHT=$(grep -cE " CAUGHT " "$TMP") MISSED=$(grep -cE " MISSED " "$TMP") INCONCLUSIVE=$(grep -cE " INCONCLUSIVE " "$TMP") NO-VERDICT=$(grep -cE " NO-VERDICT " "$TMP")"
+    rm -f "$TMP"
     ;;
   *) echo "usage: seeded.sh confirm <src_dir> <name> <property> [extra cargo flags for the demo] | run <name> [ID...] | runall"; exit 2;;
 esac
